@@ -99,7 +99,7 @@ FOLLOW = [
     "SHOW TABLES IN SCHEMA DB1.S1",
     "SELECT table_name FROM DB1.information_schema.tables WHERE table_schema = 'S1' ORDER BY 1",
 ]
-ENTRY_POINTS = ["execute", "cursor_execute", "commit", "rollback", "execute_string", "write_pandas", "executemany", "old_cursor"]
+ENTRY_POINTS = ["execute", "cursor_execute", "commit", "rollback", "execute_string", "write_pandas", "executemany", "old_cursor", "description", "describe"]
 
 
 def gen_cases(tier: str, seed: int):
@@ -107,6 +107,8 @@ def gen_cases(tier: str, seed: int):
     for ep in ENTRY_POINTS:
         for ctx in ("full", "none"):
             yield {"part": "closed", "entry": ep, "ctx": ctx}
+    for what in ("table", "view", "column"):
+        yield {"part": "stale_description", "what": what}
     n = 1500 if tier == "quick" else 18000
     # every failing statement at least once in each context / transaction state, then random
     combos = [(i, ctx, txn) for i in range(len(FAILS)) for ctx in ("full", "db", "none") for txn in (False, True)]
@@ -151,6 +153,8 @@ def setup_worker(env: core.Env) -> None:
 def run_case(case: dict, env: core.Env) -> None:
     if case["part"] == "closed":
         return _closed(case, env)
+    if case["part"] == "stale_description":
+        return _stale_description(case, env)
     name, sql, req, cause = FAILS[case["fail"]]
     ctx = case["ctx"]
     # what must happen given the context
@@ -253,6 +257,34 @@ def run_case(case: dict, env: core.Env) -> None:
         tfs.duck_conn.close()
 
 
+def _stale_description(case: dict, env: core.Env) -> None:
+    """description of a result whose object has gone since: a failure must still be a Snowflake error."""
+    fs, conn = _prepare("full")
+    try:
+        cur = conn.cursor()
+        what = case["what"]
+        if what == "view":
+            cur.execute("SELECT * FROM ORDERS_V")
+            conn.cursor().execute("DROP VIEW ORDERS_V")
+        elif what == "table":
+            cur.execute("SELECT * FROM PEOPLE")
+            conn.cursor().execute("DROP TABLE PEOPLE")
+        else:
+            cur.execute("SELECT NOTE FROM ORDERS")
+            conn.cursor().execute("ALTER TABLE ORDERS DROP COLUMN NOTE")
+        env.count("cmp_exception")
+        try:
+            _ = cur.description
+        except core.sferr.ProgrammingError as e:
+            if (e.errno, e.sqlstate) not in ALLOWED:
+                env.witness(f"C07/stale-description/errno-sqlstate-not-allowed/{what}", f"{e.errno}/{e.sqlstate}")
+        except Exception as e:  # noqa: BLE001
+            env.witness(f"C07/stale-description/not-a-snowflake-error/{what}/{type(e).__name__}", str(e)[:300])
+        env.nontrivial(("stale_description", what))
+    finally:
+        fs.duck_conn.close()
+
+
 def _closed(case: dict, env: core.Env) -> None:
     import pandas as pd
 
@@ -280,6 +312,10 @@ def _closed(case: dict, env: core.Env) -> None:
                 conn.execute_string("SELECT 1; SELECT 2")
             elif ep == "executemany":
                 conn.cursor().executemany("INSERT INTO DB1.S1.ORDERS (ID) VALUES (%s)", [(1,), (2,)])
+            elif ep == "description":
+                _ = old.description
+            elif ep == "describe":
+                old.describe("SELECT 1")
             elif ep == "write_pandas":
                 fakes.write_pandas(conn, pd.DataFrame({"ID": [1]}), "ORDERS", database="DB1", schema="S1")
             env.witness(f"C07/closed-connection/no-error/{ep}", "use of a closed connection succeeded")
